@@ -413,6 +413,13 @@ func shiftRuns(w *bufio.Writer, seed int64, from, to int, stats map[string]int) 
 		exec := func(shift int64) []string {
 			var o []string
 			st := map[string]int{}
+			if run%25 == 23 {
+				// another fixed script: a backup whose peers' payloads are the same in both executions (the timestamps they carry do
+				// not move with this node's clock) goes through a height and is re-initialised for the next one
+				backupHeightChangeAt(sink, shift, &o)
+				runInc = 1000000
+				return o
+			}
 			if run%25 == 24 {
 				// a fixed script instead of a random run: the node asks for view 1 on a timeout, then M peers ask for view 2 and it
 				// repeats its request with the reason "agreement" - the one payload whose timestamp is read in check.go
@@ -503,5 +510,30 @@ func cvAgreementAt(w *bufio.Writer, shift int64, obs *[]string) {
 	n.tm.now = n.tm.now.Add(timeDur(1500000000))
 	for _, i := range []uint16{1, 2, 3} {
 		n.recv(&Payload{dbft.ChangeViewType, 1, 0, i, chView{2, 0, 0}})
+	}
+}
+
+// backupHeightChangeAt (C14): validator 0 of 4 is a backup at heights 1 and 2. The proposal and the commits it is given are
+// byte-for-byte the same whatever its own clock shows; it commits, accepts the block and is re-initialised. Every timer it asks
+// for - the first one of height 2 included, which subtracts the time since the block's creation started - must be the same
+// under every clock offset: the node may measure elapsed time with its own clock only.
+func backupHeightChangeAt(w *bufio.Writer, shift int64, obs *[]string) {
+	n := mkScenNode(nil, 0, mkVals(4), -1, w, func(n *node) { n.epoch += shift; n.s14 = obs })
+	fixed := uint64(n.epoch-shift) + 5000000000
+	n.start(0)
+	req := &Payload{dbft.PrepareRequestType, 1, 0, 1, prepReq{fixed, 9, nil}}
+	n.recv(req)
+	n.tm.now = n.tm.now.Add(timeDur(700000000))
+	n.recv(&Payload{dbft.PrepareResponseType, 1, 0, 2, prepResp{req.Hash()}})
+	n.recv(&Payload{dbft.PrepareResponseType, 1, 0, 3, prepResp{req.Hash()}})
+	blk := &Block{idx: 1, prev: "", ts: fixed, nonce: 9}
+	before := n.height
+	n.recv(&Payload{dbft.CommitType, 1, 0, 1, commit{sigv{101, blk.Hash()}}})
+	n.recv(&Payload{dbft.CommitType, 1, 0, 2, commit{sigv{102, blk.Hash()}}})
+	n.tm.now = n.tm.now.Add(timeDur(300000000))
+	if n.height != before {
+		n.op(fmt.Sprintf("R %d", n.lastTS), func() { n.d.Reset(n.lastTS) })
+	} else {
+		n.obs14("NOT-DECIDED")
 	}
 }
